@@ -374,10 +374,13 @@ func genOp(t *rapid.T, c *Cfg, p *genProfile, kinds []string, inGrp []bool) Op {
 		op.Race = p.park && rapid.IntRange(0, 2).Draw(t, "race") == 0
 	case "gc":
 		op.Bucket = rapid.IntRange(0, 255).Draw(t, "bucket")
-		op.Begin = rapid.IntRange(-1, 8).Draw(t, "begin")
-		op.End = rapid.IntRange(-1, 10).Draw(t, "end")
+		// ranges starting above file 0 matter (what lies below the range must stay consistent with it): not only -1/0
+		op.Begin = rapid.SampledFrom([]int{-1, 0, 1, 2, 3, 2, 1, 4, 5, 6, 8}).Draw(t, "begin")
+		op.End = rapid.SampledFrom([]int{-1, -1, 2, 3, 4, 5, 1, 6, 8, 10, 0}).Draw(t, "end")
 		op.Merge = rapid.Bool().Draw(t, "merge")
 		op.ViaAPI = rapid.IntRange(0, 3).Draw(t, "api") == 0
+		// a restart right after the pass, with rebuilt indexes, is where a misplaced record shows
+		op.Mask = rapid.SampledFrom([]string{"", "", "all", "hash", "", "hints", "all"}).Draw(t, "thenreopen")
 	}
 	return op
 }
